@@ -115,9 +115,9 @@ Proof.
     + destruct (filter_agg a rv ce f ex cs r) as [[a2 ks'] err'] eqn:E. inversion H; subst. eapply IH; eauto.
 Qed.
 
-Lemma kv_finish_lock rk rv ce loie absent lwc s : kv (finish_lock rk rv ce loie absent lwc s) = kv s.
+Lemma kv_finish_lock rk rv ce loie absent lwc hv s : kv (finish_lock rk rv ce loie absent lwc hv s) = kv s.
 Proof.
-  unfold finish_lock, kv. destruct s as [a1 a2 a3 a4 a5 ag a7 a8 a9 a10 a11 a12 a13 a14]. cbn [agg]. destruct ag as [a|]; reflexivity.
+  unfold finish_lock, kv. destruct s as [a1 a2 a3 a4 a5 ag a7 a8 a9 a10 a11 a12 a13 a14 a15]. cbn [agg]. destruct ag as [a|]; reflexivity.
 Qed.
 
 Definition primary_after (assigned loie : bool) (o : lock_out) (p : option key) : option key :=
@@ -133,10 +133,10 @@ Lemma kv_lock_rpc_core all rk assigned rv ce loie f o s :
   (ka s, primary_after assigned loie o (primary s), valid s, pess s, committer s, option_map aflags (agg s)).
 Proof.
   unfold lock_rpc_core, primary_after. destruct (lo_res o) as [e|].
-  - destruct s as [a1 a2 a3 a4 a5 ag a7 a8 a9 a10 a11 a12 a13 a14]. unfold kv. cbn [agg set_store].
+  - destruct s as [a1 a2 a3 a4 a5 ag a7 a8 a9 a10 a11 a12 a13 a14 a15]. unfold kv. cbn [agg set_store].
     destruct assigned; destruct (many rk || may_be_locked e); destruct ag as [a|]; reflexivity.
   - rewrite kv_finish_lock.
-    destruct s as [a1 a2 a3 a4 a5 ag a7 a8 a9 a10 a11 a12 a13 a14]. unfold kv. cbn [agg set_store].
+    destruct s as [a1 a2 a3 a4 a5 ag a7 a8 a9 a10 a11 a12 a13 a14 a15]. unfold kv. cbn [agg set_store].
     destruct ag as [a|]; destruct a8 as [q|]; destruct (assigned && loie); simpl; try destruct (memk q (lo_absent o)); reflexivity.
 Qed.
 
@@ -221,7 +221,7 @@ Proof. unfold v_done, kreset. vcrush. Qed.
 Lemma kv_rollback_body s :
   kv (rollback_body s) = ((if pess s && committer s then kclose (ka s) else ka s), primary s, false, pess s, committer s, option_map aflags (agg s)).
 Proof.
-  unfold rollback_body, ka_close, kclose. destruct s as [a1 a2 a3 a4 a5 ag a7 a8 a9 a10 a11 a12 a13 a14]. unfold kv. simpl.
+  unfold rollback_body, ka_close, kclose. destruct s as [a1 a2 a3 a4 a5 ag a7 a8 a9 a10 a11 a12 a13 a14 a15]. unfold kv. simpl.
   destruct (a13 && a7); simpl; [|reflexivity]. destruct (a5 =? 0)%Z; simpl; destruct a14; reflexivity.
 Qed.
 
@@ -240,7 +240,7 @@ Qed.
 
 Lemma kv_rollback_body_l lost s : kv (rollback_body_l lost s) = kv (rollback_body s).
 Proof.
-  unfold rollback_body_l, rollback_body, ka_close. destruct s as [a1 a2 a3 a4 a5 ag a7 a8 a9 a10 a11 a12 a13 a14]. unfold kv. simpl.
+  unfold rollback_body_l, rollback_body, ka_close. destruct s as [a1 a2 a3 a4 a5 ag a7 a8 a9 a10 a11 a12 a13 a14 a15]. unfold kv. simpl.
   destruct (a13 && a7); simpl; [|reflexivity]. destruct (a5 =? 0)%Z; simpl; [destruct a14; reflexivity|].
   destruct (filter (fun k => memk k lost) a2); destruct a14; reflexivity.
 Qed.
@@ -317,7 +317,7 @@ Lemma ka_ok_lock_pess keys rv ce loie f o s :
   ka_ok (fst (lock_pess keys rv ce loie f o s)).
 Proof.
   intros Hok Hp Hvl Hne Hts. destruct keys as [|k0 kr]; [congruence|]. unfold lock_pess.
-  destruct s as [a1 a2 a3 a4 a5 ag a7 a8 a9 a10 a11 a12 a13 a14]. simpl in Hp, Hvl. subst a13 a12.
+  destruct s as [a1 a2 a3 a4 a5 ag a7 a8 a9 a10 a11 a12 a13 a14 a15]. simpl in Hp, Hvl. subst a13 a12.
   cbn [primary set_committer].
   destruct a8 as [p|].
   - (* the primary was chosen by an earlier call *)
@@ -379,8 +379,8 @@ Proof.
       * unfold ka_ok. rewrite kv_lock_rpc. rewrite G3, G4.
         match goal with |- context [lock_rpc_ka ?r ?as_ ?l ?oo ?x] => destruct (lock_rpc_ka_cases r as_ l oo x) as (C1 & C2 & C3) end.
         cbv zeta in C1, C2, C3.
-        assert (E6 : forall x, (x = ka_reset (set_agg (Some a') (mkS a1 a2 a3 a4 a5 (Some (a_prim true pk a)) true pk f a10 a11 true true a14)) \/
-                              x = set_agg (Some a') (mkS a1 a2 a3 a4 a5 (Some (a_prim true pk a)) true pk f a10 a11 true true a14)) ->
+        assert (E6 : forall x, (x = ka_reset (set_agg (Some a') (mkS a1 a2 a3 a4 a5 (Some (a_prim true pk a)) true pk f a10 a11 true true a14 a15)) \/
+                              x = set_agg (Some a') (mkS a1 a2 a3 a4 a5 (Some (a_prim true pk a)) true pk f a10 a11 true true a14 a15)) ->
                      primary x = pk /\ valid x = true /\ pess x = true /\ committer x = true /\ agg x = Some a' /\
                      (ka x = a14 \/ ka x = kreset a14)).
         { intros x [E|E]; subst x; unfold ka_reset, kreset; simpl; destruct a14; simpl; auto 10. }
@@ -427,7 +427,7 @@ Proof.
   intros H Hv Hts. unfold lock_keys, lock_keys_full. pose proof (ok_exit_agg ks s H) as H1.
   pose proof (valid_exit_agg ks s) as Hv1. simpl in Hts. set (s1 := exit_agg ks s) in *.
   destruct (negb (pess s1) && match agg s1 with Some _ => true | None => false end); [exact H1|].
-  destruct (lo_early o); [exact H1|].
+  destruct (early_exists _ ks); [exact H1|].
   destruct (filter (need_lock s1) ks) as [|k0 r0] eqn:Ek; [exact H1|]. rewrite <- Ek.
   destruct (loie && negb rv); [exact H1|].
   destruct (loie && (negb (committer s1) || match primary s1 with None => true | Some _ => false end) && many (filter (need_lock s1) ks)); [exact H1|].
@@ -449,6 +449,8 @@ Proof.
   - exact H.
   - exact H.
   - exact H.
+  - exact H.
+  - destruct (findk k (written s)); exact H.
   - destruct Hw. apply ka_ok_lock_keys; auto.
   - unfold ka_ok. rewrite kv_agg_start. apply ok_start. exact H.
   - unfold ka_ok. rewrite kv_agg_retry. apply ok_retry. exact H.
